@@ -452,6 +452,7 @@ theorem C09_code_register_only_others (funcOf : FormObj → FuncObj) (forms : Li
 
 end CodeTie
 
+
 /-- the order of the arguments of sum() and product() does not matter -/
 theorem C09_sum_perm (f0 : ℝ → ℝ) (fs gs : List (ℝ → ℝ)) (h : fs.Perm gs) (r : ℝ) :
     reduceF plusF f0 fs r = reduceF plusF f0 gs r := by
@@ -505,5 +506,60 @@ theorem C09_entry_order {α β : Type} (build : α → β) (es es' : List α) (h
 /-- token-level round trip (proved in Props/C09Roundtrip.lean): parsing a rendered well-formed definition gives it back -/
 theorem C09_roundtrip' (m : MultiRange) (h : WFMulti m) (explicitFirst : Bool) :
     parseDefinition (renderMulti explicitFirst m) = some m := C09_roundtrip m h explicitFirst
+
+/-! ### the `trans()` modifier -/
+section TransTie
+open Atsim.Gen.Logic
+
+/-- **code tie**: `trans()` as regenerated accepts exactly two arguments of which the second is the form `as.constant` with one parameter X, and returns the callable of
+its FIRST argument - built from that argument as it was written, range start included - evaluated at `r + X` (the closure `transformed` and its `deriv` / `deriv2`
+attributes are compared with their declared source text by the translator); everything else is refused -/
+theorem C09_code_trans_modifier (mkFn : PInstS → FnObj2) (forms : List PInstS) :
+    trans_modifier mkFn forms () =
+      (match forms with
+       | [a, b] =>
+         if !(b.isForm && b.name == "as.constant") then .error TransErr.secondNotConstant
+         else match b.parameters with
+           | [x] => .ok ⟨mkFn a, x⟩
+           | _ => .error TransErr.notOneParameter
+       | _ => .error TransErr.notTwoArguments) := by
+  unfold trans_modifier
+  match forms with
+  | [] => rfl
+  | [_] => rfl
+  | a :: b :: c :: rest =>
+    have : ((((a :: b :: c :: rest).length : Nat) : Int) == (2 : Int)) = false := by
+      simp only [List.length_cons]; apply beq_false_of_ne; omega
+    simp only [this]; rfl
+  | [a, b] =>
+    simp only [List.length_cons, List.length_nil]
+    by_cases h : (b.isForm && b.name == "as.constant") = true
+    · match hp : b.parameters with
+      | [] => simp_all
+      | [x] => simp_all [listGet]
+      | x :: y :: r =>
+        have hl : ((((x :: y :: r).length : Nat) : Int) == (1 : Int)) = false := by
+          simp only [List.length_cons]; apply beq_false_of_ne; omega
+        simp_all
+    · simp only [Bool.not_eq_true] at h
+      have hc : (b.isForm = false ∨ ¬b.name = "as.constant") := by
+        cases hf : b.isForm
+        · exact Or.inl rfl
+        · right; intro hn; simp [hf, hn] at h
+      simp_all
+
+/-- the value semantics of what is returned: reading the result through any interpretation of callables, `trans(f, as.constant X)` is `f` at `r + X` (`C09_trans`) -/
+theorem C09_code_trans_value (sem : FnObj2 → ℝ → ℝ) (mkFn : PInstS → FnObj2) (a b : PInstS) (t : TransObj) (X : ℝ)
+    (h : trans_modifier mkFn [a, b] () = .ok t) (hx : (t.x : ℝ) = X) (r : ℝ) :
+    transF (sem t.fn) X r = sem (mkFn a) (r + X) := by
+  rw [C09_code_trans_modifier] at h
+  simp only [] at h
+  split at h
+  · cases h
+  · split at h
+    · cases h; rfl
+    · cases h
+
+end TransTie
 
 end Atsim.C09
